@@ -300,3 +300,49 @@ func TestFinding25_RenderNodesWritesCallerMap(t *testing.T) {
 		t.Fatalf("caller's map was modified by RenderNodes: %v (out %q)", data, buf.String())
 	}
 }
+
+// rows 26–28: found by independent seeding agents while reading the code (session 3), confirmed here.
+
+// row 26 — C06.R1 / C01: the scoped-slot <template> node is shared by every use of the slot
+func TestFinding26_ScopedSlotContentIsPrivatePerUse(t *testing.T) {
+	out, err := renderFS(t, map[string]string{
+		"page.vuego": `<template include="list.vuego"><template v-slot="p"><template include="row.vuego" label="{{ p.item }}"></template></template></template>`,
+		"list.vuego": `<ul><li v-for="it in items"><slot :item="it"></slot></li></ul>`,
+		"row.vuego":  `<b>{{ label }}</b>`,
+	}, "page.vuego", map[string]any{"items": []string{"one", "{{ secret }}", "three"}, "secret": "LEAK"})
+	if err != nil || strings.Contains(out, "LEAK") || !strings.Contains(out, "three") {
+		t.Fatalf("scoped slot content shared between uses: %q err=%v", out, err)
+	}
+}
+
+// row 27 — C11.R7: <slot> inside supplied slot content (stack overflow kills the test binary when broken)
+func TestFinding27_SlotInsideSlotContentTerminates(t *testing.T) {
+	out, err := renderFS(t, map[string]string{
+		"page.vuego": `<template include="c.vuego"><div><slot></slot></div></template>`,
+		"c.vuego":    `<section><slot></slot></section>`,
+	}, "page.vuego", map[string]any{})
+	if err != nil || !strings.Contains(out, "<section>") {
+		t.Fatalf("out=%q err=%v", out, err)
+	}
+	fsys := fstest.MapFS{
+		"page.vuego":         &fstest.MapFile{Data: []byte("---\nlayout: main\n---\n<template v-slot:side><i>S</i><slot name=\"side\"></slot></template><p>body</p>")},
+		"layouts/main.vuego": &fstest.MapFile{Data: []byte(`<main><slot name="side"></slot><div v-html="content"></div></main>`)},
+	}
+	var buf bytes.Buffer
+	if err := vuego.NewFS(fsys).Load("page.vuego").Render(context.Background(), &buf); err != nil {
+		t.Fatalf("err=%v", err)
+	}
+}
+
+// row 28 — C07.R8: a self-referencing layout that embeds content twice (2^100 growth when broken; run under ulimit -v)
+func TestFinding28_CircularLayoutIsReportedAtOnce(t *testing.T) {
+	fsys := fstest.MapFS{
+		"page.vuego":         &fstest.MapFile{Data: []byte("---\nlayout: loop\n---\n<p>0123456789012345678901234567890123456789</p>")},
+		"layouts/loop.vuego": &fstest.MapFile{Data: []byte("---\nlayout: loop\n---\n<div v-html=\"content\"></div><div v-html=\"content\"></div>")},
+	}
+	var buf bytes.Buffer
+	err := vuego.NewFS(fsys).Load("page.vuego").Render(context.Background(), &buf)
+	if err == nil || !strings.Contains(err.Error(), "layout chain") {
+		t.Fatalf("want a layout cycle error, got %v (%d bytes)", err, buf.Len())
+	}
+}
